@@ -15,6 +15,8 @@ pub struct Cx {
     pub vios: VioSet,
     /// which property's oracle is armed: "C15", "C05", "C06", "C18"
     pub prop: &'static str,
+    /// prior content of the &mut str destination of the call being evaluated
+    pub cur_prior: Option<String>,
 }
 
 impl Cx {
@@ -26,6 +28,10 @@ impl Cx {
             .set("function", J::s(func))
             .set("input_text", J::s(&input))
             .set("dst_len", J::i(dstlen))
+            .set("prior", match (&self.cur_prior, func.contains("_to_str")) {
+                (Some(p), true) => J::s(p),
+                _ => J::Null,
+            })
             .set("detail", J::obj().set("message", J::s(&full)));
         if self.vios.wants(prop, &kind) {
             self.vios.add(Violation { prop: prop.into(), kind, msg: full, replay: j });
@@ -332,6 +338,7 @@ pub fn utf16_source(cx: &mut Cx, src: &[u16], aligns: &[usize], all_dst: bool) {
                 for lead in 0..4 {
                     cx.stats.evaluations += 1;
                     let mut s = prior_str(dl, filler, lead);
+                    cx.cur_prior = Some(s.clone());
                     let r = catch_unwind(AssertUnwindSafe(|| mem::convert_utf16_to_str_partial(src, &mut s)));
                     {
                         let f = Fnv::new().s(&input);
@@ -355,6 +362,7 @@ pub fn utf16_source(cx: &mut Cx, src: &[u16], aligns: &[usize], all_dst: bool) {
             cx.stats.evaluations += 1;
             let dl = src.len() * 3 + 2;
             let mut s = prior_str(dl, filler, 1);
+            cx.cur_prior = Some(s.clone());
             let r = catch_unwind(AssertUnwindSafe(|| mem::convert_utf16_to_str(src, &mut s)));
             {
                 let f = Fnv::new().s(&input);
@@ -649,6 +657,7 @@ pub fn latin1_source(cx: &mut Cx, src: &[u8], aligns: &[usize], all_dst: bool) {
                 for lead in 0..4 {
                     cx.stats.evaluations += 1;
                     let mut s = prior_str(dl, filler, lead);
+                    cx.cur_prior = Some(s.clone());
                     let r = catch_unwind(AssertUnwindSafe(|| mem::convert_latin1_to_str_partial(src, &mut s)));
                     {
                         let f = Fnv::new().s(&input);
@@ -667,6 +676,7 @@ pub fn latin1_source(cx: &mut Cx, src: &[u8], aligns: &[usize], all_dst: bool) {
             cx.stats.evaluations += 2;
             let dl = src.len() * 2 + 3;
             let mut s = prior_str(dl, filler, 1);
+            cx.cur_prior = Some(s.clone());
             let r = catch_unwind(AssertUnwindSafe(|| mem::convert_latin1_to_str(src, &mut s)));
             {
                 let f = Fnv::new().s(&input);
@@ -707,7 +717,7 @@ pub fn run(tier: Tier, prop: &'static str) -> (Stats, VioSet) {
     let aligns: Vec<usize> = if q { vec![0, 1] } else { vec![0, 1, 7, 15] };
     let lens: Vec<usize> = (0..=maxlen).collect();
     let outs = par_map(&lens, 16, |&len| {
-        let mut cx = Cx { stats: Stats::new(), vios: VioSet::default(), prop };
+        let mut cx = Cx { stats: Stats::new(), vios: VioSet::default(), prop, cur_prior: None };
         let fill16: [&[u16]; 4] = [&[0x61], &[0xE9], &[0x3042], &[0xD83D, 0xDE00]];
         let plant16s: [&[u16]; 25] = [&[0xD800, 0xE000], &[0xDBFF, 0xE3FF], &[0xD800, 0xE400], &[0xD800, 0xD7FF], &[0xDBFF, 0xFFFF], &[0xDC00, 0xE000], &[0xD800, 0x7F], &[0xD800, 0x80], &[0xDBFF, 0xD800, 0xDC00], &[0xE000], &[0xD800, 0xDFFF], &[0xDBFF, 0xDFFF], &[0xDBFF, 0xDC00], &[0xD800], &[0xDC00], &[0xDC00, 0xD800], &[0xE9], &[0xD83D, 0xDE00], &[0x3042], &[0x61], &[0xD83D, 0xDE00, 0xDC00], &[0xD83D, 0xDE00, 0xDC00, 0xDC00], &[0xD83D, 0xDE00, 0x20, 0xDC00], &[0xD83D, 0xDE00, 0x20], &[0xD83D, 0xD83D, 0xDE00]];
         // all destination lengths only for short sources (cost) in quick
